@@ -33,12 +33,15 @@ def LOC(kind, sel=True):
     return {"k": kind, "n": "@" + kind, "sel": sel}
 
 
+BARE = {}     # terminal text -> bare identifier, set by render() for the grammar being rendered
+
+
 def render_expr(e):
     k = e["k"]
     if k in ("L", "R"):
         return "@" + k
     if k == "t":
-        return '"%s"' % e["n"]
+        return BARE.get(e["n"]) or '"%s"' % e["n"]
     if k in ("nt", "param"):
         return e["n"]
     if k == "macro":
@@ -56,7 +59,8 @@ def render_cond(c):
     if c["op"] in ("==", "!="):
         return ' if %s %s "%s"' % (c["lhs"], c["op"], c["rhs"])
     pat = c["pat"]
-    rx = "^%s$" % pat["s"] if pat["k"] == "exact" else "^[%s]$" % "".join(pat["set"])
+    rx = "^%s$" % pat["s"] if pat["k"] == "exact" else "".join(pat["chars"]) if pat["k"] == "contains" else \
+        "^[%s]$" % "".join(pat["set"])
     return ' if %s %s "%s"' % (c["lhs"], c["op"], rx)
 
 
@@ -94,7 +98,9 @@ def render(sg, algo="lane", backend="table"):
     if core.BACKENDS[backend]:
         lines.append(core.BACKENDS[backend])
     lines.append("grammar;")
-    conv = ", ".join('"%s" => Tok::T%d(<usize>)' % (t, i) for i, t in enumerate(sg["ts"]))
+    BARE.clear()
+    BARE.update(sg.get("bare", {}))
+    conv = ", ".join('%s => Tok::T%d(<usize>)' % (BARE.get(t) or '"%s"' % t, i) for i, t in enumerate(sg["ts"]))
     lines.append("extern { type Location = usize; type Error = UErr; enum Tok { %s } }" % conv)
     for it in sg["items"]:
         head = it["name"] + ("<%s>" % ", ".join(it["params"]) if it["params"] else "")
@@ -129,13 +135,14 @@ def eval_case(sg, start, n, inject):
         for a in it["alts"]:
             c = a["cond"]
             cond = {"on": bool(c["on"]), "lhs": c.get("lhs", ""), "op": c.get("op", "=="), "rhs": c.get("rhs", ""),
-                    "pat": c.get("pat") or {"k": "exact", "s": "", "set": []}}
-            cond["pat"] = {"k": cond["pat"]["k"], "s": cond["pat"].get("s", ""), "set": cond["pat"].get("set", [])}
+                    "pat": c.get("pat") or {"k": "exact", "s": "", "set": [], "chars": []}}
+            cond["pat"] = {"k": cond["pat"]["k"], "s": cond["pat"].get("s", ""), "set": cond["pat"].get("set", []),
+                           "chars": cond["pat"].get("chars", [])}
             alts.append({"cond": cond, "rhs": [e for e in a["rhs"] if e["k"] not in ("L", "R")],
                          "P": alt_P(a, it["kind"] == "unit")})
         items.append({"name": it["name"], "params": it["params"], "kind": it["kind"], "alts": alts})
     return {"id": "%s@%s" % (sg["id"], start), "ts": list(sg["ts"]), "start": start, "n": n, "inject": inject,
-            "sugar": {"items": items}}
+            "sugar": {"items": items, "tchars": [{"n": t, "cs": list(t)} for t in sg["ts"]]}}
 
 
 # --------------------------------------------------------------------------
@@ -146,7 +153,7 @@ def alt(rhs, form, tag, cond=None, fail=None):
 
 
 def macro_grammar(rng, idx):
-    ts = ["a", "b", "c", "d"]
+    ts = ["a", "b", "c", "d"] if rng.random() < 0.5 else ["a", "b", "cd", "dx"]
     tag = [0]
 
     def nt():
@@ -198,7 +205,10 @@ def macro_grammar(rng, idx):
                          "alts": [alt([REP("+", PARAM("E"), True)], "usera", nt())], "argkinds": ["any"]}
         elif m == "Cd":
             k1 = rng.choice(ts)
-            pat = rng.choice([{"k": "exact", "s": rng.choice(ts)}, {"k": "class", "set": sorted(rng.sample(ts, 2))}])
+            one = [t for t in ts if len(t) == 1]
+            pat = rng.choice([{"k": "exact", "s": rng.choice(ts)}, {"k": "class", "set": sorted(rng.sample(one, 2))},
+                              {"k": "contains", "chars": [rng.choice(["d", "c", "x", "a"])]},
+                              {"k": "contains", "chars": [rng.choice(["d", "c", "x", "a"])]}])
             alts = [alt([PARAM("E", True)], "user", nt(), cond={"on": True, "lhs": "K", "op": "==", "rhs": k1}),
                     alt([T(rng.choice(ts)), PARAM("E", True)], "user", nt(), cond={"on": True, "lhs": "K", "op": "!=", "rhs": k1}),
                     alt([PARAM("E", True), T(rng.choice(ts))], "user", nt(),
@@ -265,5 +275,28 @@ def macro_grammar(rng, idx):
                 e["sel"] = e["sel"] or rng.random() < 0.5
         salts.append(alt(rhs, form, nt()))
     items.insert(0, {"name": "S", "params": [], "kind": "V", "alts": salts})
-    return {"id": "m%04d" % idx, "ts": ts, "starts": ["S"], "items": items, "sugar": True, "no_machine": True,
-            "nts": ["S"], "prods": [], "kinds": {"S": "V"}}
+    sg = {"id": "m%04d" % idx, "ts": ts, "starts": ["S"], "items": items, "sugar": True, "no_machine": True,
+          "nts": ["S"], "prods": [], "kinds": {"S": "V"}}
+    if rng.random() < 0.3:
+        # a terminal declared with a bare name (`TA => ..` in the extern block) and a macro parameter of the same
+        # name: inside the macro the parameter shadows the terminal
+        sg["bare"] = {ts[0]: "TA"}
+        ms = [it for it in items if it["params"]]
+        if ms:
+            it = rng.choice(ms)
+            old = it["params"][0]
+            it["params"][0] = "TA"
+
+            def ren(e):
+                if e["k"] == "param" and e["n"] == old:
+                    e["n"] = "TA"
+                elif e["k"] == "t" and e["n"] == ts[0]:
+                    e["n"] = ts[1]      # inside this macro `TA` is the parameter: the terminal cannot be named here
+                for x in e.get("args", []) + e.get("syms", []) + ([e["s"]] if "s" in e else []):
+                    ren(x)
+            for a in it["alts"]:
+                for e in a["rhs"]:
+                    ren(e)
+                if a["cond"].get("on") and a["cond"].get("lhs") == old:
+                    a["cond"]["lhs"] = "TA"
+    return sg
